@@ -221,6 +221,45 @@ def unsynced_job(j):
     return dict(viols=v, nverified=len(V), rc=res.rc)
 
 
+# a file changed since the last sync on one disk, and a real silent error in an unchanged synced file of the OTHER disk in a stripe
+# they share: (ops, disk, file, block index of the silent error)
+UNSYNCED_SILENT = {
+    "changed-d1-silent-d2": ([("touch", "d1", "f1", 1)], "d2", "g0", 2),
+    "rewritten-d1-silent-d2": ([("write", "d1", "f1", 2048, 7)], "d2", "g0", 1),
+    "changed-d2-silent-d1": ([("touch", "d2", "g0", 1)], "d1", "f1", 0),
+    "removed-d1-silent-d2": ([("rm", "d1", "f1")], "d2", "g0", 2),
+}
+
+
+def unsynced_silent_job(j):
+    """...but a silent error sitting in the same stripe as such a difference is still a silent error: marked bad and counted"""
+    cfg, saved, name, plan, older, seed = j
+    L = X.materialize(cfg, saved, seed)
+    ops, dd, fn, bi = UNSYNCED_SILENT[name]
+    c0 = L.content()
+    f = next(x for x in c0.disks[dd.encode()].files if x.sub.decode() == fn)
+    pos = f.blocks[bi][1]
+    for op in ops:
+        X.apply_op(L, op)
+    F.damage_data_block(L, c0, dd, pos, "flip0")
+    L.time += 11 * DAY
+    res = L.run("scrub", *plan_args(plan, older))
+    c2 = L.content()
+    v = []
+    where = "unsynced state %s (silent error at stripe %d), plan %s" % (name, pos, plan)
+    bad = [i for i, x in enumerate(c2.info) if x is not None and x[1]]
+    if pos not in bad:
+        v.append(dict(kind="silent-error-beside-a-changed-file-not-marked-bad", where=where, bad=bad))
+    if [i for i in bad if i != pos]:
+        v.append(dict(kind="unsynced-difference-marked-bad", where=where, stripes=[i for i in bad if i != pos]))
+    if res.rc == 0:
+        v.append(dict(kind="scrub-exit-0-with-silent-error", where=where))
+    st = res.tags.summary()
+    if st.get("error_data", "0") == "0":
+        v.append(dict(kind="silent-error-not-counted-as-data-error", where=where, summary=st))
+    return dict(viols=v, nverified=1, rc=res.rc)
+
+
 def iter_job(j):
     cfg, saved, seed = j
     L = X.materialize(cfg, saved, seed)
@@ -294,6 +333,9 @@ def run(ctx):
     for name in UNSYNCED:
         for plan, older in [("full", None), ("50", "0"), ("new", None)]:
             jobs.append(("unsynced", (cfg, saved, name, plan, older, ctx.seed)))
+    for name in UNSYNCED_SILENT:
+        for plan, older in [("full", None), ("100", "0")]:
+            jobs.append(("unsynced-silent", (cfg, saved, name, plan, older, ctx.seed)))
     jobs.append(("iter", (cfg, saved, ctx.seed)))
     evals = 0
     done = 0
@@ -320,7 +362,7 @@ def run(ctx):
 
 
 def dispatch(j):
-    return {"books": job, "seq": seq_job, "iter": iter_job, "unsynced": unsynced_job}[j[0]](j[1])
+    return {"books": job, "seq": seq_job, "iter": iter_job, "unsynced": unsynced_job, "unsynced-silent": unsynced_silent_job}[j[0]](j[1])
 
 
 def replay(r):
@@ -337,6 +379,8 @@ def replay(r):
         out = seq_job((cfg, saved, a[0], a[1], 0))
     elif r["kind"] == "unsynced":
         out = unsynced_job((cfg, saved, a[0], a[1], a[2], 0))
+    elif r["kind"] == "unsynced-silent":
+        out = unsynced_silent_job((cfg, saved, a[0], a[1], a[2], 0))
     else:
         out = iter_job((cfg, saved, 0))
     for v in out["viols"]:
